@@ -44,8 +44,8 @@ var points = []string{"launching", "configuring", "configured", "starting", "run
 // ---- input ---------------------------------------------------------------------------------
 
 type action struct {
-	kind string // env | kill | term | drop | destroy | stubborn | park | unpark
-	arg  string // env: point; drop: clean|abrupt; destroy: env index; stubborn: silent|killing; park: "<env index> destroy|cleanup"
+	kind string // env | kill | term | drop | destroy | stubborn | park | unpark | hide | mute | heal
+	arg  string // env: point; drop: clean|abrupt [heal]; destroy: env index; stubborn: silent|killing; park: "<env index> destroy|cleanup"
 }
 
 // scenario = (K KV0 (ACTION…))
@@ -97,8 +97,21 @@ func parseScenario(in string) (*scenario, error) {
 			}
 		case "kill", "term":
 		case "drop":
-			if act.arg != "clean" && act.arg != "abrupt" {
+			// (drop clean|abrupt [heal]): heal = while the stream is down, every agent (re-)registers with the master
+			// and its requests get through again (see hide/mute below): the NEXT reconciliation answer is complete
+			if k := strings.TrimSuffix(act.arg, " heal"); k != "clean" && k != "abrupt" {
 				return nil, fmt.Errorf("scenario: bad drop kind")
+			}
+		case "hide", "mute", "heal":
+			// What the master can tell the core in answer to an implicit RECONCILE is not always everything that runs:
+			// (hide)  the agents of the tasks alive now are not registered with the master from here on (master
+			//         fail-over: agents re-register later; network partition): reconciliation answers leave these
+			//         tasks out, the tasks run on;
+			// (mute)  RECONCILE calls are lost from here on (accepted, never answered);
+			// (heal)  both conditions end now — every later answer is complete. As a suffix of (drop …): they end while
+			//         the stream is down, so no quiet point lies between the healing and the next subscription.
+			if act.arg != "" {
+				return nil, fmt.Errorf("scenario: (%s) takes no argument", act.kind)
 			}
 		case "stubborn":
 			// the tasks alive now outlive every KILL from here on: silent = the KILL has no effect at all (lost
@@ -238,6 +251,8 @@ type runner struct {
 	seenEnv  map[string]bool
 	parked   *parkRec
 	parks    int
+	muted    bool // RECONCILE calls are lost at the moment (sim.SetReconcileSilent)
+	lostID   bool // a re-subscription presented another framework id than the one the core had been given
 }
 
 // a teardown whose KILL calls the master keeps in flight
@@ -387,13 +402,70 @@ func (r *runner) quiet(rounds int, phase string) error {
 	}
 	r.kvMark()
 	q := sx.L(sx.A("quiet"), sx.I(r.life))
+	hidden := map[string]bool{}
+	for _, id := range r.w.Master.HiddenFromReconcile() {
+		hidden[id] = true
+	}
 	for _, t := range r.w.Tasks() {
 		if !t.Terminal {
-			q.Add(sx.L(sx.A("T:"+t.TaskID), sx.I(t.Epoch), sx.A(strings.TrimPrefix(t.MesosState, "TASK_"))))
+			row := sx.L(sx.A("T:"+t.TaskID), sx.I(t.Epoch), sx.A(strings.TrimPrefix(t.MesosState, "TASK_")))
+			if hidden[t.TaskID] {
+				row.Add(sx.A("hid")) // alive, but the master would not report it: its agent is not registered
+			}
+			q.Add(row)
 		}
 	}
 	r.mark(q)
 	return nil
+}
+
+// hide: the agents of every task alive now are no longer registered with the master (see parseScenario).
+func (r *runner) hide() {
+	already := map[string]bool{}
+	for _, id := range r.w.Master.HiddenFromReconcile() {
+		already[id] = true
+	}
+	var ids []string
+	for _, t := range r.w.Tasks() {
+		if !t.Terminal && !already[t.TaskID] {
+			ids = append(ids, t.TaskID)
+		}
+	}
+	if len(ids) == 0 {
+		return
+	}
+	r.w.Master.HideFromReconcile(ids...)
+	n := sx.L(sx.A("hide"))
+	for _, id := range ids {
+		n.Add(sx.A("T:" + id))
+	}
+	r.mark(n)
+}
+
+// mute: RECONCILE calls are lost from now on.
+func (r *runner) mute() {
+	if r.muted {
+		return
+	}
+	r.muted = true
+	r.w.Master.SetReconcileSilent(true)
+	r.mark(sx.L(sx.A("mute")))
+}
+
+// heal: every agent is registered again, RECONCILE calls get through again.
+func (r *runner) heal() {
+	if ids := r.w.Master.UnhideFromReconcile(); len(ids) > 0 {
+		n := sx.L(sx.A("unhide"))
+		for _, id := range ids {
+			n.Add(sx.A("T:" + id))
+		}
+		r.mark(n)
+	}
+	if r.muted {
+		r.muted = false
+		r.w.Master.SetReconcileSilent(false)
+		r.mark(sx.L(sx.A("unmute")))
+	}
 }
 
 // stubborn: every task the master holds alive now outlives every KILL from here on (see parseScenario).
@@ -754,7 +826,7 @@ func (r *runner) restart(term bool) error {
 	return r.quiet(2, "restart")
 }
 
-func (r *runner) drop(abrupt bool) error {
+func (r *runner) drop(abrupt, heal bool) error {
 	if err := r.quiet(1, "pre"); err != nil {
 		return err
 	}
@@ -765,13 +837,32 @@ func (r *runner) drop(abrupt bool) error {
 	// not the subject here: give the answer time to arrive, and recognise the stuck client instead of
 	// waiting for the ceiling.
 	time.Sleep(150 * time.Millisecond)
+	if heal {
+		r.heal()
+	}
 	n := r.lastSeq()
 	logPath := r.w.CoreLog()
+	// the framework the core is: the id of the SUBSCRIBED it has just been quiet under
+	had := r.w.Master.FrameworkID()
 	r.w.DropStream(abrupt)
 	if err := sim.Poll("the core re-subscribes after the dropped stream", ceiling, func() (bool, error) {
 		tr := r.w.Trace()
-		for j := len(tr) - 1; j >= 0 && tr[j].Seq > n; j-- {
-			if tr[j].Type == "SUBSCRIBED" {
+		sub := false
+		for _, t := range tr {
+			if t.Seq <= n {
+				continue
+			}
+			if t.Dir == "call" && t.Type == "SUBSCRIBE" && !sub {
+				sub = true
+				if got := t.Call.GetSubscribe().GetFrameworkInfo().GetID().GetValue(); got != had {
+					// Not a harness problem and not a deadline: the core was seen presenting ANOTHER identity (or none)
+					// than the one it holds. A master registers a new framework for that; the core's own tasks stay
+					// behind under the old one. Nothing that follows can be scripted (the core may never settle on a
+					// subscription again): the script ends here, what happened is observed.
+					r.lostID = true
+				}
+			}
+			if sub && t.Type == "SUBSCRIBED" {
 				return true, nil
 			}
 		}
@@ -784,6 +875,9 @@ func (r *runner) drop(abrupt bool) error {
 		return false, nil
 	}); err != nil {
 		return err
+	}
+	if r.lostID {
+		return errStop
 	}
 	return r.quiet(2, "post")
 }
@@ -801,6 +895,7 @@ func runScenario(sc *scenario, verbose bool) (string, error) {
 	r := &runner{w: w, sc: sc, life: 1, seenEnv: map[string]bool{"": true}}
 	defer r.cancelInflight()
 	defer r.releaseGates()
+	defer w.Master.UnhideFromReconcile() // drops this master's entry of the simulator's side table
 	w.AddAgent(sim.AgentSpec{Host: "host1", Detector: "TST"})
 	w.AddAgent(sim.AgentSpec{Host: "host2", Detector: "TST"})
 	for j := 0; j < sc.k; j++ {
@@ -825,7 +920,13 @@ func runScenario(sc *scenario, verbose bool) (string, error) {
 		case "term":
 			err = r.restart(true)
 		case "drop":
-			err = r.drop(a.arg == "abrupt")
+			err = r.drop(strings.HasPrefix(a.arg, "abrupt"), strings.HasSuffix(a.arg, " heal"))
+		case "hide":
+			r.hide()
+		case "mute":
+			r.mute()
+		case "heal":
+			r.heal()
 		case "stubborn":
 			r.stubborn(a.arg)
 		case "park":
@@ -868,6 +969,10 @@ func runScenario(sc *scenario, verbose bool) (string, error) {
 	}
 	// let everything that was held go, and look once more
 	r.releaseGates()
+	if r.lostID {
+		// no quiet point can be expected of a core that is no longer the framework it was (see drop)
+		return r.observation(), nil
+	}
 	if err = r.quiet(1, "pre"); err != nil {
 		return "", fmt.Errorf("%s: final quiet point: %w", sc, err)
 	}
